@@ -40,7 +40,12 @@ def check(c):
     c.cov["samples"] += (s["samples"] or [])[:2]
     c.cov["exhaustive"] = True
     # second sentence: for errors returned by NewMiddleware / Reconfigure, count(All) = number of leaves >= distinct violations
-    cfglib.run(c, "C19", "cfgerrors.All on a validation error", thorough)
+    # (not run when the iterator is already known to be wrong on the generated trees: the verdict is established, and an iterator
+    # that yields too much - seeded/C19-12 replays the leftovers of every abandoned loop - makes the configuration traces explode)
+    if c.violations:
+        c.cov["second_sentence"] = "not run: the first stage already found violations"
+    else:
+        cfglib.run(c, "C19", "cfgerrors.All on a validation error", thorough)
     c.cov["rule"] = ("every join tree with <= %d nodes (all shapes: single leaves, joins of one, nested joins; generated and model-checked by "
                      "TLC) x every break position 1..leaves+1, rebuilt with the real errors.Join over distinguishable leaves and iterated with "
                      "the real cfgerrors.All (direct call with a counting consumer + range loop with break); TLC requires the first k leaves, "
